@@ -12,6 +12,7 @@ import (
 	"runtime/metrics"
 	"strconv"
 	"strings"
+	"sync/atomic"
 	"time"
 
 	"evylang.dev/evy/pkg/evaluator"
@@ -138,8 +139,13 @@ func heapTooLarge() bool {
 	return heapSample[0].Value.Uint64() > 1<<28
 }
 
+// YieldTicks counts every Yield of every run of the process: a watchdog can tell a run that
+// is slow (the counter moves) from one that does not yield at all.
+var YieldTicks atomic.Int64
+
 func (y *Yielder) Yield() {
 	y.Count++
+	YieldTicks.Add(1)
 	if y.Count%8 == 0 && y.stoppedAt < 0 && y.Fuel > 0 && heapTooLarge() {
 		y.stoppedAt = y.Count
 		y.FuelOut = true
